@@ -7,6 +7,7 @@ package prod
 import (
 	"encoding/json"
 	"fmt"
+	"math"
 	"os"
 	"path/filepath"
 	"testing"
@@ -130,15 +131,15 @@ func TestC20ProdGenesisAndClock(t *testing.T) {
 		t.Fatalf("C20: prod package was built in test mode")
 	}
 	consts := map[string]interface{}{
-		"genesis":                     int64(glow.GenesisTime),
+		"genesis":                      int64(glow.GenesisTime),
 		"report_migration_frequency_s": sc.ReportMigrationFrequency.Seconds(),
-		"server_shutdown_time_s":      sc.ServerShutdownTime.Seconds(),
-		"api_archive_limit":           sc.ApiArchiveLimit,
-		"api_archive_rate_s":          sc.ApiArchiveRate.Seconds(),
-		"client_send_report_time_s":   cc.SendReportTime.Seconds(),
-		"client_default_multiplier":   cc.DefaultMultiplier,
-		"client_default_divider":      cc.DefaultDivider,
-		"client_energy_file":          cc.EnergyFile,
+		"server_shutdown_time_s":       sc.ServerShutdownTime.Seconds(),
+		"api_archive_limit":            sc.ApiArchiveLimit,
+		"api_archive_rate_s":           sc.ApiArchiveRate.Seconds(),
+		"client_send_report_time_s":    cc.SendReportTime.Seconds(),
+		"client_default_multiplier":    cc.DefaultMultiplier,
+		"client_default_divider":       cc.DefaultDivider,
+		"client_energy_file":           cc.EnergyFile,
 	}
 	ev.Sample("c20:prod-constants", consts)
 	if dir := os.Getenv("VERIF_SHARED"); dir != "" {
@@ -154,7 +155,7 @@ func TestC20ProdConversions(t *testing.T) {
 	g := int64(glow.GenesisTime)
 	const maxSlot = int64(14316557) // floor((2^32-1)/300): no-overflow bound of the 32-bit arithmetic
 	check := func(u int64) {
-		if u-g > 1<<32-1 {
+		if u >= g && u-g > 1<<32-1 {
 			return // beyond genesis+2^32-1 seconds: outside the property's domain
 		}
 		want, ok := refSlot(u, g)
@@ -183,10 +184,17 @@ func TestC20ProdConversions(t *testing.T) {
 		check(g + 300*k + 299)
 		evals += 3
 	}
+	for _, u := range []int64{math.MinInt64, math.MinInt64 + 1, math.MinInt64 + g - 1, math.MinInt64 + g, math.MinInt64 + g + 1, -g, -1, 0, 1} {
+		check(u)
+		evals++
+	}
 	ev.Exhaustive("c20:prod:all slot boundaries k=0..14316557 (u=G+300k-1, G+300k, G+300k+299)")
 	rapid.Check(t, func(t *rapid.T) {
 		var u int64
-		switch rapid.IntRange(0, 3).Draw(t, "class") {
+		switch rapid.IntRange(0, 4).Draw(t, "class") {
+		case 4:
+			// the far end of the int64 range, where "time - genesis" itself wraps
+			u = math.MinInt64 + rapid.Int64Range(0, 2*g).Draw(t, "fromMin")
 		case 0:
 			u = g - rapid.Int64Range(1, 1<<40).Draw(t, "before")
 		case 1:
